@@ -194,6 +194,11 @@ def _eq_seq(interp, path, a: SeqT, b: SeqT, where, leaves):
     a, b = mkseq(a.blocks), mkseq(b.blocks)
     if canon(a) == canon(b):
         return
+    if a.blocks and b.blocks and not (ops.seq_is_lit(a) and ops.seq_is_lit(b)):
+        za, zb = interp.to_zseq(a), interp.to_zseq(b)
+        if za is not None and zb is not None and za.sort() == zb.sort():
+            leaves.append(Leaf(path, za == zb, where))
+            return
     if _only_lit_guard(a) and _only_lit_guard(b) and not (ops.seq_is_lit(a) and ops.seq_is_lit(b)):
         for (ca, ia) in _cases(interp, a):
             for (cb, ib) in _cases(interp, b):
@@ -203,7 +208,7 @@ def _eq_seq(interp, path, a: SeqT, b: SeqT, where, leaves):
                 sub = path.child()
                 sub.binders = path.binders
                 if c is not True:
-                    if sub.check(c) == z3.unsat:
+                    if sub.check(c, timeout_ms=sub.feas_timeout_ms) == z3.unsat:
                         continue
                     sub.assume(c)
                 if len(ia) != len(ib):
